@@ -546,8 +546,10 @@ class Survey:
                     f"than zero. Provided: {standard_deviation}."
                 )
 
+            # Store a copy (as for noise_floor and relative_error): later
+            # changes of the provided array must not change the survey.
             self._data['standard_deviation'] = self.data.observed.copy(
-                    data=standard_deviation)
+                    data=np.array(standard_deviation))
 
         # If None: assure no standard_deviation in data.
         elif 'standard_deviation' in self.data:
